@@ -274,6 +274,15 @@ def run(ctx):
     disk_ups = [c for c in calls_in(bc, nested=False) if ('func', CFGM + ':recursive_update') in cg.resolve(c.func, bc) and len(c.args) > 1 and
                 _section_expr(c.args[1])]
     if not disk_ups:
+        # layered with something else than recursive_update?  dict.update / {**a, **b} are SHALLOW: a section's nested Ignore mapping replaces the inherited one
+        shallow = [c for c in calls_in(bc, nested=False) if isinstance(c.func, ast.Attribute) and c.func.attr == 'update' and c.args and
+                   any(isinstance(x, ast.Attribute) and x.attr == '__name__' for x in ast.walk(c.args[0]))]
+        if shallow:
+            ctx.inst('R19.3', CFGM + ':build_config', repo.norm(shallow[0])[:90], False,
+                     'a section read from disk is layered with dict.update, which replaces nested values wholesale: the most specific section\'s `Ignore` mapping REPLACES the '
+                     'inherited one instead of being merged path by path (Diff: {/metadata: [foo]} is lost as soon as GitDiff has an Ignore of its own)', shallow[0])
+            disk_ups = shallow
+    if not disk_ups:
         raise AnalysisError('build_config: no update from a disk section named after the class')
 
     def enclosing_loops(node):
